@@ -269,7 +269,7 @@ def write_evidence(pid, tier, seed, prop, obs, verdicts, canaries, cverdicts, kn
     if bounded:
         cov["bounded_standins"] = dict(
             note="bounded stand-ins: never counted in obligations/discharged",
-            checks=[dict(name=o.name, status=v["status"], evaluations=v.get("extra", {}).get("evaluations"),
+            checks=[dict(name=o.name, status={"proved": "no violation found (bounded, not a proof)"}.get(v["status"], v["status"]), evaluations=v.get("extra", {}).get("evaluations"),
                          bound=v.get("extra", {}).get("bound")) for o, v in bounded])
     # evaluations / distinct_nontrivial measured (generic fallback keys, also useful to a reader)
     cov["evaluations"] = len(obs)
